@@ -458,4 +458,44 @@ def run_docs(case, cls, g):
                 "what": f"document {json.dumps(doc, ensure_ascii=False)[:200]}: generated class "
                         f"{'accepts' if got else 'rejects (' + str(err) + ')'}, draft-4 validator "
                         f"{'accepts' if want else 'rejects'} (varied: {kind})"})
-    return {"n": n, "mismatches": mismatches}
+    # field-level tie for the Lean exactness models (Spec/CodeExact.lean): one scalar property varied around a base
+    # document that both sides accept, so the verdict on the document is the verdict on that property's value
+    field_docs = []
+    base = docs[0][1] if docs else None          # obj_docs puts the base document first
+
+    def real_accepts(d):
+        try:
+            des.deserialize(json.loads(json.dumps(d)))
+            return True
+        except Exception:
+            return False
+    if isinstance(base, dict) and top.is_valid(base) and real_accepts(base):
+        for pn, sub in schema.get("properties", {}).items():
+            if pn not in base or not tie_scalar(sub):
+                continue
+            for x in gen.cands(sub, 1)[:14]:
+                if x is None or isinstance(x, (list, dict)):
+                    continue
+                d = dict(base)
+                d[pn] = x
+                field_docs.append([pn, x, real_accepts(d), top.is_valid(d)])
+    return {"n": n, "mismatches": mismatches, "field_docs": field_docs[:60]}
+
+
+def tie_scalar(s):
+    """mirror of CodeExact.exactSchema (plus: no default, no annotations needed): the scalar schemas for which the Lean
+    exactness models are evaluated on this case's documents"""
+    if not isinstance(s, dict) or "$ref" in s or "default" in s:
+        return False
+    if any(k in s for k in ("allOf", "anyOf", "oneOf", "not")):
+        return False
+    if "enum" in s:
+        return bool(s["enum"]) and all(isinstance(v, (int, float, str)) for v in s["enum"])
+    t = s.get("type", "object")
+    if t == "integer":
+        return s.get("multiplesOf", 1) > 0 and not (s.get("exclusiveMaximum") and "maximum" not in s)
+    if t == "number":
+        return "multiplesOf" not in s and not (s.get("exclusiveMaximum") and "maximum" not in s)
+    if t == "string":
+        return s.get("pattern", "^").startswith("^")
+    return t == "boolean"
